@@ -4,9 +4,9 @@ M  Local.tla: (1) the per-cell definitions and the laws the property states abou
    the complete tuple space {0,1,2,NaN}^L, L = 2..LMAX, ref = 1..L (negative twins: wrong definitions are
    rejected); (2) the iteration mechanism (np.nditer in lock-step, reshape by column count) as a state machine,
    one step per nditer iteration, over every assignment of memory layouts to the layers: the output cell must be
-   computed from its own cell.  With nditer's default order 'K' (the code today) this holds for C-like layouts,
-   TLC REJECTS it once Fortran-ordered / reversed layouts are admitted (documented defect) and proves the exact
-   frontier (IdentityIffNoScramble); with order 'C' it holds for every layout.
+   computed from its own cell.  With order 'C' (the code since fix ffb8ff0) this holds for EVERY layout
+   assignment.  Negative twins: nditer's default order 'K' (the code before the fix) is REJECTED by TLC once
+   Fortran-ordered / reversed layouts are admitted; IdentityIffNoScramble states the exact frontier of 'K'.
 R  rasters carrying the complete case space (every tuple x every ref, completeness asserted by TLC) for
    L = 2..4, in every memory layout, with data_vars orders / subsets, through all local operators; judged by
    Local_Judge.tla (definition per cell, NaN rule, frequency sum, combine numbering + key table).  np.nditer's
@@ -20,7 +20,9 @@ import random
 from harness import core
 
 NAN = -99
-JVM_ENV = {"_JAVA_OPTIONS": "-Xmx2g"}
+JVM_ENV = {"_JAVA_OPTIONS": "-Xmx2g -XX:ParallelGCThreads=2"}
+# the iteration order of the modelled code: "C" = np.nditer(..., order='C') (since fix ffb8ff0).
+CODE_ORDER = "C"
 ALL_LAYOUTS = ["C", "F", "view", "Fview", "revrows", "revcols", "revboth", "Frevrows"]
 C_LIKE = ("C", "view")
 FUNCS = ["max", "mean", "median", "min", "std", "sum", "lesser_frequency", "equal_frequency",
@@ -40,7 +42,7 @@ def mc(ctx, name, H, W, NL, names, order, inv, expect="ok", lmax=2, mut="none", 
     return ctx.model_check("Local", dict(
         spec="Spec", invariants=inv, properties=["Terminates"] if live and expect == "ok" else [],
         constants=dict(H=H, W=W, NL=NL, LAYOUTS=layout_set(H, W, names), ORDER=order, LMAX=lmax,
-                       VALS={0, 1, 2, NAN}, MUT=mut)), name, expect=expect, env=JVM_ENV)
+                       VALS={0, 1, 2, NAN}, MUT=mut)), name, expect=expect, env=JVM_ENV, workers=4)
 
 
 # ------------------------------------------------------------------------------------------------ jobs
@@ -176,7 +178,8 @@ def key_of(case, clause):
                                             "frequencies_do_not_sum_to_layer_count", "same_id_iff_same_tuple",
                                             "key_does_not_map_id_to_the_cells_tuple",
                                             "ids_not_numbered_from_1_in_first_occurrence_order"):
-        # np.nditer walks non-C-ordered layers in memory order; the flat result is reshaped as if it were C order
+        # np.nditer in its default order walks non-C-ordered layers in memory order while the flat result is
+        # reshaped as if it were C order (repaired by ffb8ff0: order='C')
         return "local:non-c-layout-scrambled"
     return "local:" + clause
 
@@ -203,9 +206,13 @@ class Tally:
 
 
 def observe(ctx, jobs, name, tally, parallel=6):
-    cases = core.run_jobs("local_worker", jobs, nproc=16)
+    for j in jobs:
+        j["order"] = CODE_ORDER
+    # each worker process pays ~5 CPU-s for importing xrspatial: few processes in the quick tier
+    cases = core.run_jobs("local_worker", jobs, nproc=ctx.pick(4, 12))
     good = [(i, c) for i, c in enumerate(cases) if "error" not in c]
-    v = ctx.judge("Local_Judge", [strip(c) for _, c in good], name=name, parallel=parallel, env=JVM_ENV)
+    v = ctx.judge("Local_Judge", [strip(c) for _, c in good], name=name, parallel=parallel, env=JVM_ENV,
+                  constants=dict(CODE_ORDER=CODE_ORDER))
     extra = dict(ctx.judge_extra)
     ctx.judge_extra.clear()
     for i, case in enumerate(cases):
@@ -226,7 +233,7 @@ def observe(ctx, jobs, name, tally, parallel=6):
         if cl != "ok":
             tally.viol(key_of(case, cl), cl, case, "%s %dx%d L=%d layouts=%s strides=%s [%s]"
                        % (case["tag"], case["H"], case["W"], L, case["job"].get("layouts"), case["strides"], ex))
-        if ex.startswith("drift") or ex == "failure_not_explained_by_iteration_model":
+        if ex.startswith("drift"):
             tally.drifts += 1
             if tally.drifts <= 5:
                 ctx.report_drift("iteration model vs code: %s on %s layouts=%s strides=%s"
@@ -265,42 +272,47 @@ def run(ctx):
     # ------------------------------------------------------------------ M
     base = ["TypeOK", "NoRepeat", "AllVisited"]
     # (1) laws of the definitions over the complete tuple space (ASSUMEs), on a trivial iteration config
-    mc(ctx, "laws_L2to%d" % (5 if thorough else 4), 2, 2, 2, ["C"], "K", base + ["PosIsIdentity"],
+    mc(ctx, "laws_L2to%d" % (5 if thorough else 4), 2, 2, 2, ["C"], CODE_ORDER, base + ["PosIsIdentity"],
        lmax=5 if thorough else 4)
-    mc(ctx, "neg_law_last_min", 2, 2, 2, ["C"], "K", ["TypeOK"], lmax=3, mut="last_min", expect="violation")
-    mc(ctx, "neg_law_lesser_or_equal", 2, 2, 2, ["C"], "K", ["TypeOK"], lmax=3, mut="lesser_or_equal",
+    mc(ctx, "neg_law_last_min", 2, 2, 2, ["C"], CODE_ORDER, ["TypeOK"], lmax=3, mut="last_min", expect="violation")
+    mc(ctx, "neg_law_lesser_or_equal", 2, 2, 2, ["C"], CODE_ORDER, ["TypeOK"], lmax=3, mut="lesser_or_equal",
        expect="violation")
-    # (2) iteration mechanism
-    grids = [(2, 3, 3), (3, 2, 2), (3, 4, 2)] + ([(4, 3, 3), (2, 5, 4), (1, 5, 2), (5, 1, 2)] if thorough else [(1, 4, 2)])
+    # (2) iteration mechanism: the code's order on EVERY assignment of the 8 layouts - per-cell
+    grids = [(2, 3, 3), (3, 2, 2), (3, 4, 2), (1, 4, 2)] + ([(4, 3, 3), (2, 5, 4), (5, 1, 2)] if thorough else [])
     for (H, W, NL) in grids:
         nm = "%dx%d_%dlayers" % (H, W, NL)
-        # the code's order 'K' on C-like layouts: per-cell
-        mc(ctx, "iterK_clike_" + nm, H, W, NL, list(C_LIKE), "K", base + ["PosIsIdentity", "IdentityIffNoScramble"])
-        # order 'K' on every layout: exactly the all-column-major / all-reversed assignments scramble
-        mc(ctx, "iterK_frontier_" + nm, H, W, NL, ALL_LAYOUTS, "K", base + ["IdentityIffNoScramble"])
-        # order 'C' (what the reshape assumes): per-cell for every layout
-        mc(ctx, "iterC_all_" + nm, H, W, NL, ALL_LAYOUTS, "C", base + ["PosIsIdentity"])
-    # the code's order 'K' with Fortran / reversed layouts admitted: TLC must find the scramble
-    mc(ctx, "iterK_all_layouts_defect_2x3", 2, 3, 2, ALL_LAYOUTS, "K", ["PosIsIdentity"], expect="violation")
-    mc(ctx, "iterK_fortran_defect_3x2", 3, 2, 3, ["C", "F"], "K", ["PosIsIdentity"], expect="violation")
+        mc(ctx, "iter%s_all_layouts_%s" % (CODE_ORDER, nm), H, W, NL, ALL_LAYOUTS, CODE_ORDER,
+           base + ["PosIsIdentity", "IdentityIffNoScramble"])
+    # negative twins: np.nditer's default order 'K' (the code before ffb8ff0) scrambles Fortran-ordered / reversed
+    # layers: TLC must find it ...
+    mc(ctx, "neg_iterK_all_layouts_2x3", 2, 3, 2, ALL_LAYOUTS, "K", ["PosIsIdentity"], expect="violation")
+    mc(ctx, "neg_iterK_fortran_3x2", 3, 2, 3, ["C", "F"], "K", ["PosIsIdentity"], expect="violation")
+    mc(ctx, "neg_iterK_reversed_rows_2x3", 2, 3, 2, ["C", "revrows"], "K", ["PosIsIdentity"], expect="violation")
+    # ... and exactly there: 'K' is per-cell on C-like layouts, and its frontier is Scrambles (this keeps the
+    # model of order 'K', which the judge uses to recognise the old defect, honest)
+    kg = grids if thorough else grids[:2]
+    for (H, W, NL) in kg:
+        nm = "%dx%d_%dlayers" % (H, W, NL)
+        mc(ctx, "twinK_frontier_" + nm, H, W, NL, ALL_LAYOUTS, "K", base + ["IdentityIffNoScramble"], live=False)
+    mc(ctx, "twinK_clike_2x3_3layers", 2, 3, 3, list(C_LIKE), "K", base + ["PosIsIdentity"], live=False)
     ctx.exhaustive = True
 
     # ------------------------------------------------------------------ R
     jobs = replay_jobs(rng, ctx.tier)
     ctx.note("R: %d datasets carrying the complete case space / finite space, x 14 operators" % len(jobs))
-    cases = observe(ctx, jobs, "replay_full_space", tally, parallel=8)
+    cases = observe(ctx, jobs, "replay_full_space", tally, parallel=ctx.pick(4, 8))
     for c in cases[:: max(1, len(cases) // 3)][:3]:
         ctx.sample({"kind": "replay", "tag": c["tag"], "shape": [c["H"], c["W"]], "L": c["L"], "strides": c["strides"]})
     jobs = nditer_jobs(rng, ctx.tier)
     ctx.note("R: %d small datasets over layout assignments (nditer order vs model)" % len(jobs))
-    cases = observe(ctx, jobs, "replay_layout_assignments", tally, parallel=6)
+    cases = observe(ctx, jobs, "replay_layout_assignments", tally, parallel=ctx.pick(3, 6))
     c = cases[len(cases) // 2]
     ctx.sample({"kind": "layouts", "tag": c["tag"], "layers": c["layers"], "ref": c["ref"], "strides": c["strides"],
                 "iter": c["iter"], "max": c["out"].get("max")})
 
     # ------------------------------------------------------------------ T
-    jobs = random_jobs(rng, ctx.pick(300, 4000))
-    cases = observe(ctx, jobs, "random_datasets", tally, parallel=ctx.pick(4, 8))
+    jobs = random_jobs(rng, ctx.pick(250, 4000))
+    cases = observe(ctx, jobs, "random_datasets", tally, parallel=ctx.pick(2, 8))
     c = cases[0]
     ctx.sample({"kind": "random", "tag": c["tag"], "layers": c["layers"], "ref": c["ref"], "strides": c["strides"],
                 "rank": c["out"].get("rank")})
